@@ -71,7 +71,7 @@ func TestC03Mass(t *testing.T) {
 		p := massParams{N: n,
 			Stride1:  coprimeFrom(pickU(g, []int{1, n - 1, 7, 389, 1 + g.uni(n, "s1")}, "stride1"), n),
 			Stride2:  coprimeFrom(pickU(g, []int{1, n - 1, 11, 577, 1 + g.uni(n, "s2")}, "stride2"), n),
-			Keep:     2 + g.uni(n/4, "keep"),
+			Keep:     pickU(g, []int{2 + g.uni(n/4, "keep"), 2 + g.uni(n/4, "keep2"), 511, 512, 255, 256, 127, 63}, "keepkind"),
 			Cache:    g.pct("cache") < 60,
 			Compress: g.pct("compress") < 15,
 			Mode:     pickU(g, []string{"single", "range", "mixed", "mixed"}, "mode"),
@@ -227,6 +227,15 @@ func caseC03Mass(t TB, prog *Program) {
 			flags["range-delete"] = 1
 		} else {
 			del(k)
+		}
+		// sizes around powers of two (with and without schema.json counted): directory listings,
+		// buffers and growth policies have their boundaries there
+		switch n := len(model); n {
+		case 1025, 1024, 1023, 513, 512, 511, 257, 256, 255, 129, 128, 127, 65, 64, 63:
+			if err := db.Control(); err != nil {
+				fail("with %d of %d objects left: Control: %v", n, p.N, err)
+			}
+			flags["control-at-boundary-size"] = 1
 		}
 		if checkpoints[len(model)] {
 			check(db, fmt.Sprintf("with %d of %d objects left", len(model), p.N))
